@@ -89,12 +89,13 @@ CHECKS = {
                        "max(next, t+1) -- i.e. never regresses and is never reused, also after the queue was emptied. Only the "
                        "in-memory half of the property. MemQueues::ack_position -- what replay does with a RecordPosition entry or the first "
                        "surviving append -- is checked on the real MemQueues (map stand-in): afterwards the queue exists, is empty and continues "
-                       "at exactly the recorded position, whatever state it was in. That GC writes those entries before unlinking, and the replay "
-                       "loop itself, are MultiRecordLog glue and not claimed."),
+                       "at exactly the recorded position, whatever state it was in. c06_gcroll_*: the real MultiRecordLog GC pass over two idle (empty) queues "
+                       "whose position entries roll over to a new WAL file: both entries are written (byte count), the file that received the first one is "
+                       "NOT reclaimed in the same pass, both queues keep their positions. The replay loop of open() is not claimed."),
         "level_note": "trusted: kani-compiler, CBMC, CaDiCaL, the 40-line reference queue in harness/mem.rs; positions are concrete values near 0, 5 and 2^62-16 (a symbolic truncation point exceeds 28 GB, DESIGN B16)",
-        "filters": ["c04_"],
-        "quick": {"harnesses": [("real", "c04_pos*_q*"), ("real", "c04_ack*_q*")], "jobs": 14, "timeout": 900},
-        "thorough": {"harnesses": [("real", "c04_pos*_q*"), ("real", "c04_pos*_t*"), ("real", "c04_ack*")], "jobs": 16, "timeout": 2400},
+        "filters": ["c04_", "c06_gcroll"],
+        "quick": {"harnesses": [("real", "c04_pos*_q*"), ("real", "c04_ack*_q*"), ("real", "c06_gcroll_q*")], "jobs": 14, "timeout": 900},
+        "thorough": {"harnesses": [("real", "c04_pos*_q*"), ("real", "c04_pos*_t*"), ("real", "c04_ack*"), ("real", "c06_gcroll_q*")], "jobs": 16, "timeout": 2400},
         "rule": ("case = one operation script (base-N digits over the alphabet, see harness/mem.rs mem_scripts) run on the real "
                  "MemQueue and on the reference in lock step, assertions after every step; non-trivial = at least two accepted "
                  "appends; counts are read from CBMC's symex log (mark_case / mark_nontrivial)"),
@@ -145,10 +146,11 @@ CHECKS = {
                        "the unreferenced oldest files, oldest first, never the last one. c06_gc*: the real MultiRecordLog::truncate / delete_queue / "
                        "run_gc_if_necessary over a log with three files: after every call the tracked files are exactly the contiguous run from the file of "
                        "the oldest retained record (or the current file) to the current file, disk_used_bytes follows, and one position entry per empty queue is "
-                       "written before files are reclaimed. open(), roll-over and the actual unlink are std::fs and not claimed."),
+                       "written before files are reclaimed; c06_gcroll_*: a GC pass whose position entries roll over to a new file keeps the file that received the "
+                       "first of them. open() and the actual unlink are std::fs and not claimed."),
         "level_note": "trusted: kani-compiler (atomics of Arc treated sequentially), CBMC, CaDiCaL, the ghost map in harness/mem.rs; hook FileNumber::for_verif",
         "filters": ["c06_"],
-        "quick": {"harnesses": [("real", "c06_files*_q*"), ("real", "c06_tracker_q*"), ("real", "c06_gc_q*"), ("real", "c06_gc0_q*"), ("real", "c06_gc2_q*"), ("real", "c06_gc2b_q*")], "jobs": 14, "timeout": 1200},
+        "quick": {"harnesses": [("real", "c06_files*_q*"), ("real", "c06_tracker_q*"), ("real", "c06_gc_q*"), ("real", "c06_gc0_q*"), ("real", "c06_gc2_q*"), ("real", "c06_gc2b_q*"), ("real", "c06_gcroll_q*")], "jobs": 14, "timeout": 1200},
         "thorough": {"harnesses": [("real", "c06_files*"), ("real", "c06_tracker_q*"), ("real", "c06_gc*")], "jobs": 16, "timeout": 2400},
         "rule": ("case = one script over [append same file, append after roll-over, truncate first / middle / last] (x2 queues in the "
                  "files2 family); after each step every file handle is compared with the ghost 'some retained record lives in it'"),
@@ -302,13 +304,14 @@ CHECKS = {
                        "zero-prefilled blocks; for EVERY cut offset c the image 'first c bytes, zeros after' is recovered by the real reader "
                        "driven like the replay loop: exactly the entries completed before the cut are delivered, never a partial one; and for every "
                        "cut between two frames a real writer resumes there with a new entry, after which exactly the completed entries and the "
-                       "new one are recovered (orphan frames never delivered or spliced). "
+                       "new one are recovered (orphan frames never delivered or spliced). GC order (c06_gcroll_*, real MultiRecordLog): the position entries of idle "
+                       "queues are written before files are reclaimed and the file holding them survives the pass even when they roll over to a new file. "
                        "Crashes inside file creation/removal or GC, the writer resuming behind the torn tail (RollingReader::into_writer) "
                        "and usability after recovery are file-layer / MultiRecordLog glue and not claimed."),
         "level_note": "trusted: kani-compiler, CBMC, CaDiCaL; ideal-checksum oracle for the torn frame; effects reach the zero-prefilled file in program order (process-crash model)",
-        "filters": ["c02_"],
-        "quick": {"harnesses": [("16", "c02_torn_q*"), ("16", "c02_resume_q*")], "jobs": 14, "timeout": 1500},
-        "thorough": {"harnesses": [("16", "c02_torn_*"), ("16", "c02_resume_*"), ("32", "c02_*_t32_*")], "jobs": 8, "timeout": 3000},
+        "filters": ["c02_", "c06_gcroll"],
+        "quick": {"harnesses": [("16", "c02_torn_q*"), ("16", "c02_resume_q*"), ("real", "c06_gcroll_q*")], "jobs": 14, "timeout": 1500},
+        "thorough": {"harnesses": [("16", "c02_torn_*"), ("16", "c02_resume_*"), ("32", "c02_*_t32_*"), ("real", "c06_gcroll_q*")], "jobs": 8, "timeout": 3000},
         "rule": "case = (length triple, cut offset), every offset 0..=end; non-trivial = the cut falls inside a frame payload; counted from the symex log",
         "samples": ["c02_torn_q_a_c036: lengths (5,20,1), cuts 36..41 (inside the Middle frame of entry 1)",
                     "c02_resume_q_a_n4_f0: crash after frame 0/1/2 of (5,20,1) (frame 1 = orphan First frame of entry 1), then a real writer resumes there with a new 4-byte entry; recover all"],
